@@ -26,11 +26,13 @@ pub fn int_class_range(class: usize) -> (i128, i128) {
         10 => ((1 << 31) - 3, (1 << 31) + 3),
         11 => (0, 1),
         12 => (-128, 127),
+        13 => (0, 65536),                                     // one past u16: grouping switches from array to hash at 65 536
+        14 => (100, 65637),
         _ => (-(1 << 40), 1 << 40),
     }
 }
 
-pub const N_INT_CLASSES: usize = 14;
+pub const N_INT_CLASSES: usize = 16;
 
 pub fn gen_ints(r: &mut Rng, n: usize, class: usize, distinct: Option<usize>) -> Vec<i64> {
     let (lo, hi) = int_class_range(class);
